@@ -1,6 +1,7 @@
 package scen
 
 import (
+	"strings"
 	"time"
 
 	sdk "github.com/cosmos/cosmos-sdk/types"
@@ -74,6 +75,9 @@ func Core() Spec {
 		fix(Cancel(C, B2, "2")),
 		fix(Cancel(B, B3, "1")),
 		fix(Seal(A, B1)),
+		// the recipient in the all-upper-case bech32 spelling: another account, and the sender's own
+		fix(SendSpelled(B, strings.ToUpper(C.String()), "C-UPPERCASE", B1, "1", "0.5")),
+		fix(SendSpelled(B, strings.ToUpper(B.String()), "B-UPPERCASE(self)", B1, "1", "0.5")),
 		// several entries in one message, the same batch twice
 		fix(SendN(B, C, SC(B1, "1", "0"), SC(B1, "0.5", "0.25"))),
 		fix(SendN(C, D, SC(B1, "0.5", "0"), SC(B2, "0.5", "0"))),
